@@ -82,6 +82,7 @@ def syndrome_table(pm, n):
 
 
 def run_item(item):
+    item.cross_check = True      # thorough tier: discharged obligations are re-decided by cvc5
     pm = load_repo()
     name, prm = item.name, item.params
     item.encoded("pyModeS.py_common.crc", "pyModeS.py_common.hex2bin", "pyModeS.py_common.bin2int")
